@@ -3,6 +3,8 @@ import Model.C18.Fee
 import Model.C18.Funding
 import Model.C18.Amount
 import Model.C18.SpendSize
+import Model.C18.PsbtSize
+import Model.C18.SigOps
 import Generated.Fee
 open Btc Btc.C18
 
@@ -37,6 +39,40 @@ def renderDecPair (r : Except Py.PyErr (Nat × Int)) : String :=
   match r with
   | .ok (c, e) => s!"ok {c} {e}"
   | .error e => "err " ++ e.name
+
+def natCsv? (s : String) : Option (List Nat) :=
+  if s == "_" then some [] else (s.splitOn ",").mapM String.toNat?
+
+def hexCsv? (s : String) : Option (List Bytes) :=
+  if s == "-" then some [] else (s.splitOn ",").mapM fromHex?
+
+/-- `key:hash160(key)` pairs: the keys of hd_key_paths and the hash table standing for hash160 -/
+def keyTable? (s : String) : Option (List (Bytes × Bytes)) :=
+  if s == "-" then some [] else (s.splitOn ",").mapM fun t =>
+    match t.splitOn ":" with
+    | [k, h] => do pure ((← fromHex? k), (← fromHex? h))
+    | _ => none
+
+/-- key validity by shape (the harness only sends real curve points in key positions) -/
+def shapeKey (k : Bytes) : Bool :=
+  (k.length == 33 && (k.headD 0 == 2 || k.headD 0 == 3)) || (k.length == 65 && k.headD 0 == 4)
+
+def optHex? (s : String) : Option (Option Bytes) := if s == "None" then some none else (fromHex? s).map some
+
+def renderSizes (r : Except Spend.Err (Nat × List Nat)) : String :=
+  match r with
+  | .ok (n, w) => s!"ok {n} " ++ (if w.isEmpty then "_" else ",".intercalate (w.map toString))
+  | .error _ => "err value"
+
+/-- one input `scriptSigSize:w1/w2/…` (`-` for an empty witness) -/
+def insTok? (s : String) : Option (List (Nat × List Nat)) :=
+  if s == "_" then some [] else (s.splitOn ";").mapM fun t =>
+    match t.splitOn ":" with
+    | [a, w] => do
+      let a ← a.toNat?
+      let w ← if w == "-" then some [] else (w.splitOn "/").mapM String.toNat?
+      pure (a, w)
+    | _ => none
 
 /-- line protocol of property C18: see harness/c18.py -/
 def handle : List String → String
@@ -78,6 +114,22 @@ def handle : List String → String
     match r.toNat?, s.toNat? with
     | some r, some s => s!"ok {derSigLen r s}"
     | _, _ => "bad-op"
+  | ["psize.input", spk, redeem, ws, keys, sht, leaf, fss, fwit, sizer] =>
+    match optHex? spk, fromHex? redeem, fromHex? ws, keyTable? keys, fromHex? fss, hexCsv? fwit with
+    | some spk, some redeem, some ws, some keys, some fss, some fwit =>
+      let sht : Option Nat := if sht == "None" then none else sht.toNat?
+      let sizer : Option (List Nat) := if sizer == "None" then none else natCsv? sizer
+      let H : Bytes → Bytes := fun k => (keys.lookup k).getD []
+      renderSizes (estimatedInputSizes (typeAndPayload shapeKey) H sizer
+        ⟨spk, redeem, ws, keys.map (·.1), sht, leaf == "1", fss, fwit⟩)
+    | _, _, _, _, _, _ => "bad-op"
+  | ["psize.weight", ins, outLens] =>
+    match insTok? ins, natCsv? outLens with
+    | some ins, some ls =>
+      let outs := (ls.map fun l => 8 + (cs l + l)).sum
+      s!"ok {txSize true ins ls.length outs} {txWeight ins ls.length outs}"
+    | _, _ => "bad-op"
+  | ["sigops.count", hex] => (fromHex? hex).elim "bad-op" fun b => s!"ok {sigOpCount b}"
   | _ => "bad-op"
 
 def main : IO Unit := runLoop handle
